@@ -50,6 +50,9 @@ func main() {
 		os.Exit(2)
 	}
 	switch os.Args[1] {
+	case "smlworker":
+		smlWorker()
+		return
 	case "check":
 		fs := flag.NewFlagSet("check", flag.ExitOnError)
 		tier := fs.String("tier", "quick", "")
